@@ -1,9 +1,11 @@
 package main
 
 import (
+	"context"
 	"encoding/json"
 	"fmt"
 	"hash/fnv"
+	"os/exec"
 	"strconv"
 	"strings"
 	"time"
@@ -103,6 +105,24 @@ func checkC05(c *CheckCtx) error {
 	if c.thorough() {
 		if err := c.contractModel(false); err != nil {
 			return err
+		}
+		// independent engine: Apalache (symbolic) checks the same statement of the table
+		adir, err := specDir(c.Sc, c.Sc.Next("apa"))
+		if err != nil {
+			return err
+		}
+		ctx, cancel := context.WithTimeout(context.Background(), 5*time.Minute)
+		cmd := exec.CommandContext(ctx, "apalache-mc", "check", "--inv=Inv", "--length=1", "ApaMode.tla")
+		cmd.Dir = adir
+		out, aerr := cmd.CombinedOutput()
+		cancel()
+		switch {
+		case aerr == nil && strings.Contains(string(out), "NoError"):
+			c.note("Apalache cross-check of Mode!TableOK: NoError")
+		case strings.Contains(string(out), "Error") && strings.Contains(string(out), "invariant"):
+			return inconclusive("Apalache disagrees with TLC about Mode!TableOK:\n%s", tail(out, 1500))
+		default:
+			c.note("Apalache cross-check not available in this environment (%v)", aerr)
 		}
 	}
 	var cells []*modeCell
